@@ -23,7 +23,8 @@ MANIFEST = {
                  "definitions on brute-force minimum-image bond vectors; name-based lookup for the named torsions",
     "text": "Full product: all ordered triplets and quartets of distinct points of a jittered 2x2x3 lattice (quick: 1320 / "
             "11880) or 3x3x3 lattice (thorough: 17550 / 421200, one vectorised call) with spacing 0.2 x the smallest cell "
-            "width x cell menu (reduced + unreduced forms, two per-frame-varying stacks, no cell) x placement {whole cluster "
+            "width x cell menu (reduced + unreduced forms, (2,2,2|90,90,45/135), per-frame-varying stacks of 3 cells and 18-frame "
+            "stacks whose consecutive frames share all cell parameters but one or two, no cell) x placement {whole cluster "
             "straddling the faces at the origin, every atom wrapped into the cell, atoms scattered over +-2 cells} x jitter "
             "scale {0.25 generic, 0.03 near-collinear/near-planar} x periodic x opt (reference path on all tuples of a "
             "2x2x2 (quick) / 2x2x3 (thorough) sub-lattice). Oracle float64: angle = acos of the normalised bond vectors at the "
@@ -34,7 +35,12 @@ MANIFEST = {
             "position, every residue missing each of N/CA/C/CB/CG, water inserted at every position, hydrogens, reversed "
             "atom order} + 1- and 2-residue peptides: compute_phi/psi/omega/chi1..5 must return exactly the quartets found "
             "by atom name from the documented definitions, in residue order, with values identical to compute_dihedrals on "
-            "them and equal to the oracle. Right level: straight-line float kernels plus a small pattern matcher; a complete "
+            "them and equal to the oracle. Index-list length classes {1..9, 255..257, 300, 511..513, 767, 768, 1000, 1024, "
+            "1025}: a sub-list must give exactly the rows of the full call (3-frame stacks: all three kernels). Histories on "
+            "ONE Topology object: call all named functions, edit in place keeping chain/residue/atom counts (16 edits: rename "
+            "atom / residue, delete+add, insert+delete), call all, edit, call all, for every ordered pair of edits on two "
+            "peptides; judged against the name-based lookup on the topology as it is then and against the same topology rebuilt "
+            "from scratch. Right level: straight-line float kernels plus a small pattern matcher; a complete "
             "tuple enumeration over a designed cell/placement menu with an independent definition decides the property on "
             "this bounded family.",
     "note": "Bounded family (12 / 27 points, cells of the menu). Excluded and counted: tuples with a bond whose minimum image "
@@ -55,8 +61,9 @@ GAP_C = 4                 # a bond is judged only if the second-best image is lo
 MAXV = 2
 
 
-def _menu():
-    return {c["name"]: c for c in grids.cell_menu(quick=False)}
+_menu = gc.extended_menu
+STACKS.update(gc.SHARED_STACKS)       # 18-frame stacks: consecutive frames share all cell parameters but one or two
+BLOCK_SIZES = [1, 2, 3, 4, 5, 7, 8, 9, 255, 256, 257, 300, 511, 512, 513, 767, 768, 1000, 1024, 1025]
 
 
 class Acc:
@@ -244,6 +251,21 @@ def _job(spec):
             if A.shape != (F, len(tl)) or D.shape != (F, len(ql)):
                 acc.add("angles|%s|shape" % tag, "shapes %s %s" % (A.shape, D.shape))
                 continue
+            # index-list length classes (SIMD remainders, block sizes): a sub-list gives the same rows as the full list
+            for m in BLOCK_SIZES:
+                if not opt and m > 9:
+                    continue
+                for nm, fn, lst, fullv in (("angles", md.compute_angles, tl, A), ("dihedrals", md.compute_dihedrals, ql, D)):
+                    if m > len(lst):
+                        continue
+                    s0 = (len(lst) - m) // 3
+                    got = np.asarray(fn(gc.make_traj(xyz32, **kw), lst[s0:s0 + m], periodic=periodic, opt=opt))
+                    acc.n["evaluations"] += int(got.size)
+                    acc.n["index_sublist_calls"] += 1
+                    if got.shape != (F, m) or not np.array_equal(got, fullv[:, s0:s0 + m]):
+                        acc.add("%s|%s|sublist-differs-from-full-list" % (nm, tag), "tuples[%d:%d] (%d tuples, %d frames) give other "
+                                "values than the same rows of the full %d-tuple call; job=%s place=%s"
+                                % (s0, s0 + m, m, F, len(lst), spec["name"], spec["place"]))
             A = A.astype(np.float64)
             D = D.astype(np.float64)
             # range (all tuples, also the excluded ones)
@@ -420,9 +442,169 @@ def _named_variants(ctx):
     return [v + (ctx.seed,) for v in out], [s for s, _ in seqs]
 
 
+# ---------------------------------------------------------------------------------------------------
+# named torsions: histories on ONE Topology object  (call -> in-place edit -> call -> edit -> call)
+# ---------------------------------------------------------------------------------------------------
+HIST_PEPTIDES = {
+    "pep10": [["ILE", "LEU", "MET", "ARG", "ASP", "PHE", "GLY", "LYS", "THR", "GLU"]],
+    "pep3+4": [["ALA", "ILE", "ASN"], ["GLN", "MET", "TYR", "PRO"]],
+}
+
+
+def _find(top, resname, atomname=None):
+    for r in top.residues:
+        if r.name == resname:
+            if atomname is None:
+                return r
+            for a in r.atoms:
+                if a.name == atomname:
+                    return a
+    return None
+
+
+def _rename_atom(resname, old, new):
+    def f(top):
+        a = _find(top, resname, old)
+        if a is None or _find(top, resname, new) is not None:
+            return False
+        a.name = new
+        return True
+    return f
+
+
+def _rename_residue(old, new):
+    def f(top):
+        r = _find(top, old)
+        if r is None:
+            return False
+        r.name = new
+        return True
+    return f
+
+
+def _delete_add(resname, atomname):
+    """delete the atom and add an atom of the same name to the same residue: counts kept, the atom gets the last index
+    and every later atom moves down by one"""
+    def f(top):
+        a = _find(top, resname, atomname)
+        if a is None:
+            return False
+        res, el = a.residue, a.element
+        top.delete_atom_by_index(a.index)
+        top.add_atom(atomname, el, res)
+        return True
+    return f
+
+
+def _insert_delete(top):
+    """insert a dummy atom as atom 0 of the first residue and delete the last atom: counts kept, every index shifts by one"""
+    import mdtraj as md
+    last = top.atom(top.n_atoms - 1)
+    if last.name in ("N", "CA", "C", "CB", "CG"):
+        return False
+    top.delete_atom_by_index(last.index)
+    top.insert_atom("XX", md.element.hydrogen, top.residue(0), index=0, rindex=0)
+    return True
+
+
+# (label, kind, function); every edit keeps (n_chains, n_residues, n_atoms); renames avoid names that would turn a residue
+# into a non-standard one matching another documented pattern (docstrings silent there)
+EDITS = [
+    ("ILE:CD1->CD", "rename-atom", _rename_atom("ILE", "CD1", "CD")),
+    ("ILE:CD->CD1", "rename-atom", _rename_atom("ILE", "CD", "CD1")),
+    ("MET:SD->S", "rename-atom", _rename_atom("MET", "SD", "S")),
+    ("MET:S->SD", "rename-atom", _rename_atom("MET", "S", "SD")),
+    ("MET:N->NX", "rename-atom", _rename_atom("MET", "N", "NX")),
+    ("MET:NX->N", "rename-atom", _rename_atom("MET", "NX", "N")),
+    ("ILE:C->CX", "rename-atom", _rename_atom("ILE", "C", "CX")),
+    ("ILE:CX->C", "rename-atom", _rename_atom("ILE", "CX", "C")),
+    ("ASP->ASN", "rename-residue", _rename_residue("ASP", "ASN")),
+    ("GLN->GLU", "rename-residue", _rename_residue("GLN", "GLU")),
+    ("PHE->TYR", "rename-residue", _rename_residue("PHE", "TYR")),
+    ("TYR->PHE", "rename-residue", _rename_residue("TYR", "PHE")),
+    ("ILE:CB-delete+add", "delete+add", _delete_add("ILE", "CB")),
+    ("MET:N-delete+add", "delete+add", _delete_add("MET", "N")),
+    ("ILE:CA-delete+add", "delete+add", _delete_add("ILE", "CA")),
+    ("insert-first+delete-last", "insert+delete", _insert_delete),
+]
+
+
+def _layout_from_topology(top):
+    """[(resname, {atom name: index})] per chain, read off the containers of the topology as it is now."""
+    return [[(r.name, {a.name: a.index for a in r.atoms}) for r in ch.residues] for ch in top.chains]
+
+
+def _rebuild(top):
+    """The same topology built from scratch (same chains, residues, atom names and atom indices)."""
+    import mdtraj as md
+    new = md.Topology()
+    rmap = {}
+    for ch in top.chains:
+        c = new.add_chain()
+        for r in ch.residues:
+            rmap[r.index] = new.add_residue(r.name, c, resSeq=r.resSeq)
+    for a in sorted(top.atoms, key=lambda a: a.index):        # index order, so that every atom keeps its index
+        new.add_atom(a.name, a.element, rmap[a.residue.index])
+    assert all(x.index == y.index and x.name == y.name for x, y in
+               zip(sorted(top.atoms, key=lambda a: a.index), sorted(new.atoms, key=lambda a: a.index)))
+    return new
+
+
+def _history_job(spec):
+    """All histories  call-all, e1, call-all, e2, call-all  for one first edit e1 (e2 over all edits) on one peptide."""
+    import mdtraj as md
+    pep, i1, seed = spec["hist"]
+    acc = Acc(spec)
+    fns = {k: getattr(md, "compute_" + k) for k in FUNCS}
+    keys = set()
+
+    def call_all(traj, top, hist):
+        exp = gc.expected_torsions(_layout_from_topology(top))
+        fresh = md.Trajectory(traj.xyz, _rebuild(top))
+        for k in FUNCS:
+            kind = hist[-1][1] if hist else "no-edit"
+            sig = "named-history|%s|after-%s|" % (k, kind)
+            where = "%s history: call-all%s" % (pep, "".join(", %s, call-all" % h[0] for h in hist))
+            idx, val = fns[k](traj)
+            idx, val = np.asarray(idx), np.asarray(val)
+            acc.n["evaluations"] += 2
+            acc.n["history_calls"] += 1
+            e = exp[k]
+            if idx.shape != e.shape or not np.array_equal(idx, e):
+                acc.add(sig + "indices", "%s: compute_%s on the edited Topology object returned %s, by atom name on the topology as "
+                        "it is now: %s" % (where, k, idx.tolist(), e.tolist()))
+                continue
+            idx2, val2 = fns[k](fresh)
+            if np.asarray(idx2).shape != idx.shape or not np.array_equal(idx2, idx) or not np.array_equal(val2, val):
+                acc.add(sig + "differs-from-rebuilt-topology", "%s: compute_%s differs between the edited object and the same "
+                        "topology rebuilt from scratch" % (where, k))
+            if len(e) and not np.array_equal(val, md.compute_dihedrals(traj, e)):
+                acc.add(sig + "values-vs-compute_dihedrals", "%s: compute_%s values differ from compute_dihedrals on the quartets"
+                        % (where, k))
+
+    for i2 in range(len(EDITS)):
+        top, _lay = gc.build_peptide(HIST_PEPTIDES[pep])
+        xyz = grids.jitter(2 * top.n_atoms, 3, scale=0.75, seed=seed).reshape(2, top.n_atoms, 3).astype(np.float32)
+        traj = md.Trajectory(xyz, top)
+        assert traj.topology is top
+        counts = (top.n_chains, top.n_residues, top.n_atoms)
+        hist = []
+        call_all(traj, top, hist)
+        for i in (i1, i2):
+            lab, kind, fn = EDITS[i]
+            if not fn(top):
+                break
+            assert (top.n_chains, top.n_residues, top.n_atoms) == counts
+            hist.append((lab, kind))
+            call_all(traj, top, hist)
+            keys.add((pep,) + tuple(h[0] for h in hist))
+    viol = [v for lst in acc.viol.values() for v in lst]
+    return {"family": "history", "n": dict(acc.n), "ratio": dict(acc.ratio), "viol": viol, "histories": sorted(keys)}
+
+
 def _jobs(ctx):
     quick = ctx.quick
-    names = [c["name"] for c in grids.cell_menu(quick=quick)]
+    names = [c["name"] for c in grids.cell_menu(quick=quick)] + ["g45", "g135"]
     dims, sub = ((2, 2, 3), (2, 2, 2)) if quick else ((3, 3, 3), (2, 2, 3))
     jobs = []
     for jit in JITS:
@@ -431,13 +613,16 @@ def _jobs(ctx):
             for nm in names:
                 jobs.append(dict(name=nm, cells=[nm], **common))
             for sn, lst in STACKS.items():
-                jobs.append(dict(name=sn, cells=list(lst), **common))
+                if len(lst) > 3:      # long stacks: 12 points, reference path on a 4-point sub-lattice (cost ~ frames x tuples)
+                    jobs.append(dict(name=sn, cells=list(lst), place=place, jit=jit, dims=(2, 2, 3), sub=(2, 1, 2), seed=ctx.seed))
+                else:
+                    jobs.append(dict(name=sn, cells=list(lst), **common))
         jobs.append(dict(name="nocell", cells=None, place="whole", jit=jit, dims=dims, sub=sub, seed=ctx.seed))
     return jobs, names
 
 
 def _dispatch(item):
-    return _job(item[1]) if item[0] == "geom" else _named_job(item[1])
+    return {"geom": _job, "named": _named_job, "hist": _history_job}[item[0]](item[1])
 
 
 def run(ctx):
@@ -446,10 +631,13 @@ def run(ctx):
     nvars, seqnames = _named_variants(ctx)
     menu = _menu()
     cost = lambda j: 0 if j["cells"] is None else sum(0 if menu[c]["ortho"] else 1 for c in j["cells"])
-    items = [("geom", j) for j in sorted(jobs, key=lambda j: -cost(j))] + [("named", v) for v in nvars]
+    hjobs = [{"hist": [pep, i1, ctx.seed]} for pep in HIST_PEPTIDES for i1 in range(len(EDITS))]
+    items = [("geom", j) for j in sorted(jobs, key=lambda j: -cost(j))] + [("named", v) for v in nvars] + [("hist", h) for h in hjobs]
     res = ctx.pmap(_dispatch, items, chunksize=1)
     geo = res[:len(jobs)]
-    nam = res[len(jobs):]
+    nam = res[len(jobs):len(jobs) + len(nvars)]
+    his = res[len(jobs) + len(nvars):]
+    histories = sorted({tuple(h) for r in his for h in r["histories"]})
     tot = collections.Counter()
     ratio = collections.defaultdict(float)
     for r in res:
@@ -465,7 +653,7 @@ def run(ctx):
     samples = [r["samples"][0] for r in geo[:: max(1, len(geo) // 4)] if r["samples"]][:4] + [nam[len(nam) // 3]["sample"]]
     cov = {
         "evaluations": int(tot["evaluations"]),
-        "distinct_nontrivial": int(tot["distinct_nontrivial"]) + len(topo_keys),
+        "distinct_nontrivial": int(tot["distinct_nontrivial"]) + len(topo_keys) + len(histories),
         "rule": "geometry: one case = (cell as stored, placement, jitter scale, frame, periodic flag, ordered index tuple); "
                 "tuples are distinct by construction (all permutations of distinct points; jobs differ in cell, placement or "
                 "jitter); counted as non-trivial when judged, i.e. every bond has a unique minimum image inside C05's domain "
@@ -493,6 +681,17 @@ def run(ctx):
                            "families": dict(families), "calls": int(tot["named_calls"]),
                            "expected_torsions_per_function_summed_over_topologies": dict(tors),
                            "cells": [str(c) for c in NCELLS]},
+        "named_torsion_histories": {
+            "rule": "on ONE Topology object (and one Trajectory holding it): call all 8 named-torsion functions, edit in place "
+                    "(counts of chains/residues/atoms unchanged), call all, edit, call all; every ordered pair of edits; "
+                    "judged against the name-based lookup on the topology as it is at that moment, against the same topology "
+                    "rebuilt from scratch, and against compute_dihedrals",
+            "peptides": HIST_PEPTIDES, "edits": [(e[0], e[1]) for e in EDITS],
+            "distinct_histories_with_at_least_one_edit": len(histories),
+            "with_two_edits": sum(1 for h in histories if len(h) == 3), "calls": int(tot["history_calls"]),
+            "sample": list(histories[len(histories) // 2]) if histories else None},
+        "index_sublist_calls_compared_with_full_list": int(tot["index_sublist_calls"]),
+        "index_list_length_classes": BLOCK_SIZES,
         "comparisons_per_check": {k[4:]: int(v) for k, v in tot.items() if k.startswith("cmp_")},
         "failing_comparisons_per_check": {k[4:]: int(v) for k, v in tot.items() if k.startswith("bad_")},
         "max_err_over_tol_per_check": {k: float(v) for k, v in ratio.items()},
@@ -507,7 +706,9 @@ def run(ctx):
 
 def replay(ctx, rep):
     import mdtraj  # noqa: F401
-    if "named" in rep["job"]:
+    if "hist" in rep["job"]:
+        fn, arg = _history_job, rep["job"]
+    elif "named" in rep["job"]:
         fn = _named_job
         arg = list(rep["job"]["named"])
         arg[4] = tuple((int(a), str(b)) for a, b in arg[4])
